@@ -64,12 +64,13 @@ func gfShort(s string) string {
 	return s
 }
 
-func gidFactsOf(fd *ast.FuncDecl) (g gidFacts) {
+func gidFactsOf(f *ast.File, fd *ast.FuncDecl) (g gidFacts) {
 	unk := func(n ast.Node) { g.unknown = append(g.unknown, gfShort(src(n))) }
 	if fd.Type.Params.NumFields() != 0 || fd.Type.Results.NumFields() != 1 || src(fd.Type.Results.List[0].Type) != "int64" {
 		g.unknown = append(g.unknown, "signature: "+gfShort(src(fd.Type)))
 	}
-	stmts := fd.Body.List
+	// read through one level of helper extraction (inline.go, inlineresults.go)
+	stmts := inlineResultHelpers(f, inlineHelpers(f, fd.Body.List))
 	i := 0
 	next := func() (ast.Stmt, string) {
 		if i < len(stmts) {
@@ -193,7 +194,7 @@ func genGidFacts() string {
 		if err != nil {
 			panic(err)
 		}
-		return gidFactsOf(findFunc(f, "", "getg"))
+		return gidFactsOf(f, findFunc(f, "", "getg"))
 	}()
 	var b strings.Builder
 	b.WriteString(header("gidfacts", file))
